@@ -42,7 +42,7 @@ package server
 //@   ghost gdst (Array Int Int) = arbitraryIntMap()
 //@   at append#1 before set gsrc = store(gsrc, len(out), rangeindex)
 //@   at append#1 before set gdst = store(gdst, rangeindex, len(out))
-//@   ensures [C36.filter_never_drops_matching] forall i int :: 0 <= i && i < len(segments) && segMayHold(parsed, segments[i], timeMin, timeMax) ==> (exists j int :: 0 <= j && j < len(result) && result[j] == segments[i])
+//@   ensures [C36.filter_never_drops_matching] forall i int :: 0 <= i && i < len(segments) && segMayHold(parsed, segments[i], timeMin, timeMax) ==> 0 <= gdst[i] && gdst[i] < len(result) && result[gdst[i]] == segments[i]
 //@   ensures [C36.filter_is_subsequence] forall j int :: 0 <= j && j < len(result) ==> 0 <= gsrc[j] && gsrc[j] < len(segments) && result[j] == segments[gsrc[j]] && segKept(parsed, segments[gsrc[j]], timeMin, timeMax) && (j > 0 ==> gsrc[j-1] < gsrc[j])
 //@   ensures [C36.filter_subsequence_complete] forall i int :: 0 <= i && i < len(segments) && segKept(parsed, segments[i], timeMin, timeMax) ==> 0 <= gdst[i] && gdst[i] < len(result) && gsrc[gdst[i]] == i
 //@   ensures [C36.filter_input_unchanged] forall i int :: 0 <= i && i < len(segments) ==> segments[i] == old(segments[i])
